@@ -121,7 +121,9 @@ class TlcRun:
     def cmd(self):
         meta = os.path.join(self.wd, "meta_" + self.name)
         self.cex_path = os.path.join(self.wd, "cex_" + self.name + ".json")
-        jopts = ["-XX:+UseParallelGC", "-XX:ParallelGCThreads=2", "-Xss512m", "-Xmx" + self.mem, "-DTLA-Library=" + SPEC]
+        tmp = os.path.join(self.wd, "jtmp")          # TLC unpacks its standard modules into java.io.tmpdir on every start: keep that out of /tmp
+        os.makedirs(tmp, exist_ok=True)
+        jopts = ["-XX:+UseParallelGC", "-XX:ParallelGCThreads=2", "-Xss512m", "-Xmx" + self.mem, "-DTLA-Library=" + SPEC, "-Djava.io.tmpdir=" + tmp]
         if self.deque:
             jopts.append("-Dtlc2.tool.queue.IStateQueue=StateDeque")
         return (["java"] + jopts + ["-cp", TLA_CP, "tlc2.TLC", "-workers", str(self.workers), "-config", self.cfg,
@@ -385,6 +387,7 @@ class Result:
         if not os.environ.get("VERIF_KEEP"):
             for wd in _WORKDIRS:
                 shutil.rmtree(os.path.join(wd, "tab"), ignore_errors=True)
+                shutil.rmtree(os.path.join(wd, "jtmp"), ignore_errors=True)
                 for f in os.listdir(wd) if os.path.isdir(wd) else []:
                     fp = os.path.join(wd, f)
                     if os.path.isfile(fp) and os.path.getsize(fp) > 20000000:
